@@ -557,6 +557,9 @@ def run(chk):
         "taken from the libtins serialisation of the request and given to the model",
         "ICMP destination-unreachable quoting exactly the request's IPv4 header is outside the mirrored-reply relation "
         "(specification: unspecified; libtins accepts it by design)",
+        "matched fields of the specification: reply destination = request source (not matched when the request's IPv4 source is "
+        "0.0.0.0), reply source = request destination unless that is a group address (Ethernet group bit, IPv4 255.255.255.255 or "
+        "224/4, IPv6 ff00::/8), both ports, ICMP/ICMPv6 reply type + identifier + sequence, DNS id, VLAN id",
         "IPv6 replies with extension headers are outside the specification's accept/reject clauses (model + noFault + correspondence only)",
     ]
     chk.trusted += ["correspondence harness harness/c14_match.cpp + generators in checks/C14.py",
